@@ -5,4 +5,4 @@ p="$1"; shift
 [ -d "$p" ] && p="$p/patch.diff"
 if [ -d /tmp/rf ]; then git -C /tmp/rf checkout -q -- . && git -C /tmp/rf clean -fdq && git -C /tmp/rf checkout -q --detach $(git -C /repo rev-parse HEAD); else git -C /repo worktree add -q --detach /tmp/rf HEAD; fi
 git -C /tmp/rf apply "$p" || exit 3
-/verif/bin/vuegocheck -no-evidence -repo /tmp/rf -verif /verif "$@"
+${VC_BIN:-/verif/bin/vuegocheck} -no-evidence -repo /tmp/rf -verif /verif "$@"
